@@ -2594,6 +2594,9 @@ func compDefineX(sc *scope, n *node) error {
 				if typ, err = srcType(src.child[0]); err != nil {
 					return err
 				}
+				if !isChan(typ) {
+					return src.cfgErrorf("invalid operation: cannot receive from non-channel %s", typ.id())
+				}
 				if typ.cat == valueT {
 					typ = valueTOf(typ.rtype.Elem())
 				} else {
